@@ -329,4 +329,53 @@ theorem parseModComp_str (T : Tables) {m : Str} (h : 35 ∉ m) (hc : convertType
     parseModComp T m = compStrBody T m := by
   rw [parseModComp_eq, hc]; simp [h]
 
+/-! ## multiplier -/
+
+theorem Num_mul_one (v : Num) : Num.mul v (Num.ofInt 1) = v := by
+  cases v with
+  | mk val isFloat => simp [Num.mul, Num.ofInt]
+
+/-- multiply every count of a composition (what `modCompMult` does) -/
+def scaleComp (k : Int) (c : Comp) : Comp := c.map (fun kv => (kv.1, Num.mul kv.2 (Num.ofInt k)))
+
+theorem scaleComp_one (c : Comp) : scaleComp 1 c = c := by
+  induction c with
+  | nil => rfl
+  | cons a c ih =>
+    simp only [scaleComp, List.map_cons, Num_mul_one] at ih ⊢
+    rw [ih]
+
+theorem scaleComp_keys (k : Int) (c : Comp) : (scaleComp k c).map (·.1) = c.map (·.1) := by
+  simp [scaleComp]
+
+theorem scaleComp_vals (k : Int) (c : Comp) :
+    (scaleComp k c).map (·.2.val) = c.map (fun kv => kv.2.val * (k : Rat)) := by
+  simp [scaleComp, Num.mul, Num.ofInt]
+
+/-- `chem_mass` is linear in the counts -/
+theorem chemMassComp_scale (M : MassTable) (mono : Bool) (k : Int) (c : Comp) :
+    chemMassComp M mono (scaleComp k c) = (chemMassComp M mono c).map (· * (k : Rat)) := by
+  induction c with
+  | nil => simp [scaleComp, chemMassComp, Except.map]
+  | cons a c ih =>
+    obtain ⟨key, v⟩ := a
+    simp only [scaleComp, List.map_cons] at ih ⊢
+    simp only [chemMassComp]
+    cases elemMass M mono key with
+    | error e => rfl
+    | ok m =>
+      simp only [ih]
+      cases chemMassComp M mono c with
+      | error e => rfl
+      | ok t =>
+        simp only [Except.map, Num.mul, Num.ofInt]
+        congr 1
+        ring
+
+theorem rat_mul_add (m : Rat) (a b : Int) : m * ((a + b : Int) : Rat) = m * (a : Rat) + m * (b : Rat) := by
+  push_cast; ring
+
+theorem rat_mul_mul (m : Rat) (a b : Int) : m * ((a * b : Int) : Rat) = m * (a : Rat) * (b : Rat) := by
+  push_cast; ring
+
 end ModDbGeneric
